@@ -671,3 +671,82 @@ func foundFlagGuard(p *core.Prog, st *ssa.Store) bool {
 	}
 	return false
 }
+
+// RuleKInferAll — every transaction of the target is handed to the model:
+// the call of Model.Infer in the commands sits in a loop that is left only
+// when its range is exhausted (no break, no return out of the body), and
+// within an iteration it depends only on the type test that picks the
+// transactions among the directives.
+func RuleKInferAll(c *core.Ctx) {
+	const rule = "K-infer-all"
+	p := c.P
+	infer := p.Func(pkgBayes, "Model.Infer")
+	if infer == nil {
+		c.Anchor(rule, "bayes.Model.Infer")
+		return
+	}
+	n := 0
+	for _, fn := range p.SrcFuncs() {
+		if !strings.HasPrefix(core.PkgPathOf(fn), core.Module+"/cmd") {
+			continue
+		}
+		core.EachInstr(fn, func(ins ssa.Instruction) {
+			call, ok := ins.(*ssa.Call)
+			if !ok || call.Call.StaticCallee() != infer {
+				return
+			}
+			n++
+			key := core.FuncName(fn) + ":every transaction of the target reaches Model.Infer"
+			var body map[*ssa.BasicBlock]bool
+			var header *ssa.BasicBlock
+			for h, b := range loopsOf(fn) {
+				if b[call.Block()] && (body == nil || len(b) < len(body)) {
+					header, body = h, b
+				}
+			}
+			if body == nil {
+				c.Ob(rule, key, call.Pos(), core.FuncName(fn), core.Violated, "Model.Infer is not called in a loop over the directives of the target")
+				return
+			}
+			bad := ""
+			for b := range body {
+				if b == header {
+					continue
+				}
+				for _, s := range b.Succs {
+					if !body[s] {
+						bad = "the loop is left at " + p.Pos(core.NearPos(b.Instrs[len(b.Instrs)-1])) + " before its range is exhausted"
+					}
+				}
+				if _, isRet := b.Instrs[len(b.Instrs)-1].(*ssa.Return); isRet {
+					bad = "the function returns from inside the loop at " + p.Pos(core.NearPos(b.Instrs[len(b.Instrs)-1]))
+				}
+			}
+			for b := range body {
+				iff, ok := b.Instrs[len(b.Instrs)-1].(*ssa.If)
+				if !ok || b == header || bad != "" {
+					continue
+				}
+				if ctl, _ := core.Controls(b, call.Block()); !ctl {
+					continue
+				}
+				// the ok of a type assertion on the directive
+				isTypeTest := false
+				if ex, ok := iff.Cond.(*ssa.Extract); ok && ex.Index == 1 {
+					if _, ok := ex.Tuple.(*ssa.TypeAssert); ok {
+						isTypeTest = true
+					}
+				}
+				if !isTypeTest {
+					bad = "the call depends on the condition at " + p.Pos(core.NearPos(iff)) + ", which is not the type test that picks the transactions"
+				}
+			}
+			if bad == "" {
+				c.Ob(rule, key, call.Pos(), core.FuncName(fn), core.Discharged, "called for every directive that is a transaction; the loop ends only with its range")
+			} else {
+				c.Ob(rule, key, call.Pos(), core.FuncName(fn), core.Violated, bad+": some placeholder bookings of the target are never offered a replacement")
+			}
+		})
+	}
+	c.Floor(rule, 1)
+}
